@@ -5,6 +5,7 @@ import verif as V
 
 PROP = "C09"
 PROPS = "props/C09.v"
+PROPS_B = "props/C09b.v"
 MODEL_DEPS = ["c09/Run.v"]
 
 
@@ -60,10 +61,14 @@ def run(tier, seed, explicit=None):
         "json.Unmarshal never fails on a string literal whose escapes scanString has validated (tokInvalid from "
         "unquote is not modelled; token kinds are compared on every generated string)",
     ]
-    ok, log = V.regen(["grammar"])
+    ok, log = V.regen(["grammar", "yytables"])
     if not ok:
         c.notes.append("translator failed: " + V.tail(log, 10))
     proved = c.prove(PROPS)
+    # C09b: the goyacc automaton over the tables of the current parser.go (c08/LR.v driver) against the spec parser,
+    # finite checks by vm_compute (coq/c09/LRTieProofs.v, ~1 min when the tables or the grammar changed, cached
+    # otherwise)
+    proved = c.prove(PROPS_B) and proved
     exe_h, hlog = V.build_harness("c09")
     st_ops, st_lex = {}, {}
     n_ops = n_lex = 0
